@@ -50,6 +50,7 @@ TRIMESH_DIR = os.path.join(REPO, "trimesh") + os.sep
 ANCHOR_FILES = ("runlength.py", "encoding.py", "base.py", "transforms.py", "ops.py", "binvox.py")
 DTYPES = ["uint8", "int8", "uint16", "int64"]
 KS = [254, 255, 256, 300, 510, 511]
+IDENTITY_TOL = 1e-8  # voxel.transforms.Transform.is_identity / transformations.transform_points skip matrices this close to eye(4)
 
 
 # ------------------------------------------------------------------------------------------ helpers
@@ -72,8 +73,10 @@ def _tm_frame(exc):
     return anchored or anyt
 
 
-def lib(sig, fn, *a, tail="", **k):
-    """Call into trimesh; an exception raised below trimesh becomes a Violation with a narrow signature."""
+def lib(where, fn, *a, tail="", **k):
+    """Call into trimesh. An exception raised below trimesh becomes a Violation whose signature is the root cause
+    as far as it can be told mechanically: exception type + innermost function of the anchored files (the same
+    defect reached through different APIs / sub-checks is one bucket); `where` only goes into the message."""
     try:
         with warnings.catch_warnings():
             warnings.simplefilter("ignore")
@@ -85,7 +88,7 @@ def lib(sig, fn, *a, tail="", **k):
         fr = _tm_frame(e)
         if fr is None:
             raise
-        raise Violation(f"{sig}|exc|{type(e).__name__}|{fr[0]}:{fr[1]}{tail}", f"{type(e).__name__}: {str(e)[:300]}") from None
+        raise Violation(f"C13|exc|{type(e).__name__}|{fr[0]}:{fr[1]}", f"[{where}{tail}] {type(e).__name__}: {str(e)[:300]}") from None
 
 
 def _tolist(x):
@@ -177,8 +180,7 @@ def b_rl(case, ctx):
     ctx.note(nontrivial=_nontrivial(seq) or (len(set(seq)) >= 2 and k >= 2), cls=[f"rl:{dtn}:run{runcls}", f"rl:form={form}"])
 
     iv = case.get("iv")
-    # exception signatures keep whether python lists were passed (a root cause of its own); value signatures do not
-    kc = ("data=list" if form == "list" else "data=array") + (",idx=list" if iv and iv.startswith("list") else "")
+    kc = f"form={form}" + (f",idx={iv}" if iv else "")
 
     def sg(clause):
         return f"C13.rl|{fn}|{clause}|{lc}"
@@ -253,7 +255,7 @@ def b_rl(case, ctx):
             try:
                 out = call(rl.rle_to_brle, R)
             except Violation as v:
-                if "|exc|ValueError|runlength.py:rle_to_brle" in v.sig:
+                if v.sig == "C13|exc|ValueError|runlength.py:rle_to_brle":
                     return  # documented ValueError for values other than 0/1
                 raise
             check(False, sg("no_error"), f"values other than 0/1 accepted: {_short(_tolist(R))} -> {_short(out)}")
@@ -387,10 +389,14 @@ RLE_FNS = ["rle_to_dense", "rle_to_brle", "rle_to_brle_dt", "rle_to_rle", "merge
 BRLE_FNS = ["brle_to_dense", "brle_to_dense_vals", "brle_to_rle", "brle_to_brle", "merge_brle_lengths", "brle_length", "brle_reverse", "brle_logical_not", "brle_strip", "brle_to_sparse", "brle_mask"]
 GATHER_IV = ["arr_sorted", "arr_sorted_rep", "arr_unsorted", "arr_single", "arr_empty", "arr_int32_unsorted", "list_unsorted", "list_empty"]
 SORTED_IV = ["arr_sorted", "arr_sorted_rep", "arr_single", "arr_empty", "list_sorted", "list_empty"]
+GATHER_IV_FEW = ["arr_sorted_rep", "arr_unsorted", "list_unsorted"]
+SORTED_IV_FEW = ["arr_sorted_rep", "list_sorted"]
 
 
-def _rl_cases(seq, isbool, k, dtn, dt2s, forms_extra):
+def _rl_cases(seq, isbool, k, dtn, dt2s, forms_extra, gather_iv=None, sorted_iv=None):
     """All function cases for one (sequence, k, dtype)."""
+    gather_iv = gather_iv or GATHER_IV
+    sorted_iv = sorted_iv or SORTED_IV
     base = {"seq": [int(v) for v in seq], "bool": isbool, "k": k, "dt": dtn}
     binary = all(v in (0, 1) for v in seq)
 
@@ -415,10 +421,10 @@ def _rl_cases(seq, isbool, k, dtn, dt2s, forms_extra):
                     yield c(fn, form, dt2=d2)
             else:
                 yield c(fn, form)
-    for iv in GATHER_IV:
+    for iv in gather_iv:
         yield c("rle_gather_1d", "arr", iv=iv)
         yield c("rle_gatherer_1d", "arr", iv=iv)
-    for iv in SORTED_IV:
+    for iv in sorted_iv:
         yield c("sorted_rle_gather_1d", "arr", iv=iv)
     if "list" in forms_extra:
         yield c("sorted_rle_gather_1d", "list", iv="arr_sorted_rep")
@@ -435,10 +441,10 @@ def _rl_cases(seq, isbool, k, dtn, dt2s, forms_extra):
                     yield c(fn, form, dt2=d2)
             else:
                 yield c(fn, form)
-    for iv in GATHER_IV:
+    for iv in gather_iv:
         yield c("brle_gather_1d", "arr", iv=iv)
         yield c("brle_gatherer_1d", "arr", iv=iv)
-    for iv in SORTED_IV:
+    for iv in sorted_iv:
         yield c("sorted_brle_gather_1d", "arr", iv=iv)
     if "list" in forms_extra:
         yield c("sorted_brle_gather_1d", "list", iv="arr_sorted_rep")
@@ -459,12 +465,15 @@ def _other_dt(dtn):
     return "int64" if dtn != "int64" else "uint8"
 
 
-def _rl_k1(max_bool_all, max_int_all, max_bool, max_int):
-    """k=1: short sequences x all four count dtypes; the longer ones with uint8 (a run of <=11 never reaches a maximum)."""
+def _rl_k1(max_bool_all, max_int_all, max_bool, max_int, max_forms):
+    """k=1: short sequences x all four count dtypes; the longer ones with uint8 (a run of <=11 never reaches a maximum);
+    python-list / non-merged / odd-length input forms for sequences up to max_forms."""
     for seq, isbool in _seqs(max_bool, max_int):
         full = len(seq) <= (max_bool_all if isbool else max_int_all)
+        short = len(seq) <= max_forms
+        forms = ("list", "nc", "odd") if short else ()
         for dtn in DTYPES if full else ["uint8"]:
-            yield from _rl_cases(seq, isbool, 1, dtn, [_other_dt(dtn)], ("list", "nc", "odd"))
+            yield from _rl_cases(seq, isbool, 1, dtn, [_other_dt(dtn)], forms, None if short else GATHER_IV_FEW, None if short else SORTED_IV_FEW)
 
 
 def _rl_inflated(max_bool, max_int):
@@ -485,15 +494,13 @@ def _rl_u16():
                 yield c
 
 
-@subcheck("C13", "rl_k1", shards={"quick": 8, "thorough": 12})
 def s_rl_k1(ctx):
     if ctx.tier == "quick":
-        ctx.enumerate("C13.rl", _rl_k1(6, 4, 11, 5), label="runlength_all_fns_bool_len<=11_int{0,1,2,5}_len<=5_k=1")
+        ctx.enumerate("C13.rl", _rl_k1(6, 4, 11, 5, 8), label="runlength_all_fns_bool_len<=11_int{0,1,2,5}_len<=5_k=1_(list/nonmerged/odd_forms_len<=8)")
     else:
-        ctx.enumerate("C13.rl", _rl_k1(8, 5, 11, 6), label="runlength_all_fns_bool_len<=11_int{0,1,2,5}_len<=6_k=1")
+        ctx.enumerate("C13.rl", _rl_k1(8, 5, 11, 6, 11), label="runlength_all_fns_bool_len<=11_int{0,1,2,5}_len<=6_k=1_all_forms")
 
 
-@subcheck("C13", "rl_inflated", shards={"quick": 8, "thorough": 16})
 def s_rl_inflated(ctx):
     if ctx.tier == "quick":
         ctx.enumerate("C13.rl", _rl_inflated(4, 2), label="runlength_all_fns_bool_len<=4_int_len<=2_x_k{254,255,256,300,510,511}_x_4dtypes")
@@ -501,7 +508,6 @@ def s_rl_inflated(ctx):
         ctx.enumerate("C13.rl", _rl_inflated(7, 3), label="runlength_all_fns_bool_len<=7_int_len<=3_x_k{254,255,256,300,510,511}_x_4dtypes")
 
 
-@subcheck("C13", "rl_u16", shards={"quick": 2, "thorough": 2})
 def s_rl_u16(ctx):
     ctx.enumerate("C13.rl", _rl_u16(), label="runlength_all_fns_uint16_boundary_k{65535,65536}")
 
@@ -509,7 +515,10 @@ def s_rl_u16(ctx):
 # ------------------------------------------------------------------------------------------ C13.enc
 
 KINDS = ["dense", "sparse", "rle", "brle"]
-APIS = ["dense", "shape", "sum", "is_empty", "sparse", "gather_nd", "mask", "get_value", "stripped", "rld", "brld", "copy"]
+# "basic" = shape/size/ndims, is_empty, sum, dense, copy checked one after the other (each with its own signature);
+# they are cheap and robust, everything else is one API per case so that a failing API never hides another one
+BASIC = ["shape", "is_empty", "sum", "dense", "copy"]
+APIS = ["basic", "sparse", "gather_nd", "mask", "get_value", "stripped", "rld", "brld"]
 
 
 def _kind_label(kind, nd):
@@ -575,6 +584,10 @@ def _cells(shape):
 
 def _eval_api(api, e, A, case, label):
     """Compare one read API of encoding `e` with numpy on the represented array A."""
+    if api == "basic":
+        for sub in BASIC:
+            _eval_api(sub, e, A, case, label)
+        return
     aux = int(case.get("aux", 0))
     nd = A.ndim
     pre = f"C13.enc|{api}|{label}"
@@ -747,6 +760,8 @@ def _enc_base_cases():
             vals = _bits(n, size)
             for kind in KINDS:
                 for api in APIS:
+                    if size >= 12 and api in ("gather_nd", "mask", "get_value") and n % 4 != (i // 8) % 4 and n not in (0, 2**size - 1):
+                        continue  # index maps do not depend on the content: every 4th array for these three
                     i += 1
                     yield {"shape": list(shape), "vals": vals, "bool": True, "kind": kind, "edt": DTYPES[i % 4], "how": ("from_dense", "ref")[(i // 4) % 2],
                            "odt": DTYPES[(i // 8) % 4], "api": api, "aux": n + i % 7, "chain": []}
@@ -904,23 +919,20 @@ def enc_case(draw, min_depth=0, max_depth=3):
             "odt": draw(st.sampled_from(DTYPES)), "api": api, "aux": draw(st.integers(0, 200)), "chain": chain}
 
 
-@subcheck("C13", "enc_base", shards={"quick": 8, "thorough": 8})
 def s_enc_base(ctx):
     ctx.enumerate("C13.enc", _enc_base_cases(), label="encodings_all_bool_arrays_shapes<=(2,3,2)_x_4_classes_x_all_read_apis")
 
 
-@subcheck("C13", "enc_views", shards={"quick": 6, "thorough": 16})
 def s_enc_views(ctx):
     if ctx.tier == "quick":
         ctx.enumerate("C13.enc", _enc_view_cases((1, 2), [(2, 3, 2)]), label="lazy_view_chains_depth<=2_from_(2,3,2)_x_4_classes_x_all_read_apis")
         ctx.enumerate("C13.enc", _enc_view_cases((1,), [(1, 2, 3)]), label="lazy_view_chains_depth1_from_(1,2,3)")
-        ctx.given("C13.enc", enc_case(min_depth=3, max_depth=3), n={"quick": 9000, "thorough": 0})
+        ctx.given("C13.enc", enc_case(min_depth=3, max_depth=3), n={"quick": 5000, "thorough": 0})
     else:
         ctx.enumerate("C13.enc", _enc_view_cases((1, 2, 3), [(2, 3, 2)]), label="lazy_view_chains_depth<=3_from_(2,3,2)_x_4_classes_x_all_read_apis")
         ctx.enumerate("C13.enc", _enc_view_cases((1, 2), [(1, 2, 3)]), label="lazy_view_chains_depth<=2_from_(1,2,3)")
 
 
-@subcheck("C13", "enc_long", shards={"quick": 4, "thorough": 8})
 def s_enc_long(ctx):
     if ctx.tier == "quick":
         ctx.enumerate("C13.enc", _enc_long_cases(3, [255, 256, 300, 510]), label="long_run_1d_encodings_bool_len<=3_x_k{255,256,300,510}_x_narrow_count_dtypes")
@@ -928,9 +940,8 @@ def s_enc_long(ctx):
         ctx.enumerate("C13.enc", _enc_long_cases(5, KS), label="long_run_1d_encodings_bool_len<=5_x_all_k_x_narrow_count_dtypes")
 
 
-@subcheck("C13", "enc_hyp", shards={"quick": 2, "thorough": 8})
 def s_enc_hyp(ctx):
-    ctx.given("C13.enc", enc_case(), n={"quick": 6000, "thorough": 200000})
+    ctx.given("C13.enc", enc_case(), n={"quick": 3000, "thorough": 200000})
 
 
 # ------------------------------------------------------------------------------------------ C13.grid
@@ -963,8 +974,10 @@ def b_grid(case, ctx):
     if what == "roundtrip":
         p = lib(tag, g.indices_to_points, idx.copy())
         want_p = idx @ M[:3, :3].T + M[:3, 3]
-        scale = np.abs(M[:3, :3]).sum() * (np.abs(idx).max() if len(idx) else 1) + np.abs(M[:3, 3]).max() + 1
-        check(p.shape == want_p.shape and np.allclose(p, want_p, rtol=0, atol=1e-9 * scale), tag + "|indices_to_points", lambda: f"{p.tolist()} want {want_p.tolist()}")
+        imax = float(np.abs(idx).sum(axis=1).max()) if len(idx) else 0.0
+        scale = np.abs(M[:3, :3]).sum() * imax + np.abs(M[:3, 3]).max() + 1
+        # 1e-9 relative float error + the documented identity shortcut (matrices within 1e-8 of eye(4) are not applied)
+        check(p.shape == want_p.shape and np.allclose(p, want_p, rtol=0, atol=1e-9 * scale + IDENTITY_TOL * (imax + 1)), tag + "|indices_to_points", lambda: f"{p.tolist()} want {want_p.tolist()}")
         j = lib(tag, g.points_to_indices, p)
         check(np.array_equal(j, idx), tag + "|inverse", lambda: f"points_to_indices(indices_to_points(i)) = {_short(j.tolist())} for i = {_short(idx.tolist())}")
         j2 = lib(tag, g.points_to_indices, want_p + off @ M[:3, :3].T)
@@ -995,7 +1008,7 @@ def b_grid(case, ctx):
         check(sorted(map(tuple, back.tolist())) == sorted(map(tuple, cells.tolist())), tag + "|set", lambda: f"points are the centres of cells {_short(back.tolist())} want {_short(cells.tolist())}")
         order = {tuple(c): i for i, c in enumerate(cells.tolist())}
         perm = [order[tuple(b)] for b in back.tolist()]
-        check(np.allclose(pts, want[perm], rtol=0, atol=1e-9 * scale), tag + "|value", "points differ from M @ index")
+        check(np.allclose(pts, want[perm], rtol=0, atol=1e-9 * scale + IDENTITY_TOL * (sum(A.shape) + 1)), tag + "|value", "points differ from M @ index")
         if len(pts):
             f = np.asarray(lib(tag, g.is_filled, pts))
             check(f.all(), tag + "|is_filled_points", "is_filled(grid.points) is not all True")
@@ -1021,9 +1034,8 @@ def grid_case(draw):
     return {"shape": list(shape), "vals": vals, "M": M, "kind": kind, "view": view, "idx": [list(i) for i in idx], "off": [list(x) for x in off], "what": what}
 
 
-@subcheck("C13", "grid", shards={"quick": 3, "thorough": 8})
 def s_grid(ctx):
-    ctx.given("C13.grid", grid_case(), n={"quick": 6000, "thorough": 120000})
+    ctx.given("C13.grid", grid_case(), n={"quick": 3000, "thorough": 120000})
 
 
 # ------------------------------------------------------------------------------------------ C13.binvox
@@ -1064,7 +1076,7 @@ def b_binvox(case, ctx):
     M[:3, 3] = t
     longest = max([c for _, c in ref.runs(A.transpose((0, 2, 1)).reshape(-1).tolist())] + [0])
     ctx.note(nontrivial=_nontrivial(flat), cls=[f"binvox:{what}", f"binvox:kind={kind}", "binvox:run" + ("<255" if longest < 255 else "=k*255" if longest % 255 == 0 else ">255")])
-    tag = f"C13.binvox|{what}"
+    tag = f"C13.binvox|{what}|{'cubic' if len(set(shape)) == 1 else 'noncubic'}"
     perm = (0, 2, 1) if ao == "xzy" else (0, 1, 2)
     tol = 1e-12 * (abs(L) + np.abs(t).max() + 1)
 
@@ -1154,10 +1166,24 @@ def binvox_case(draw):
             "axis_order": draw(st.sampled_from(["xzy", "xzy", "xyz"])), "what": what, "kind": draw(st.sampled_from(["ndarray", "dense", "sparse", "rle", "brle", "rle_u8", "brle_u8"]))}
 
 
-@subcheck("C13", "binvox", shards={"quick": 3, "thorough": 8})
 def s_binvox(ctx):
-    ctx.given("C13.binvox", binvox_case(), n={"quick": 3000, "thorough": 60000})
+    ctx.given("C13.binvox", binvox_case(), n={"quick": 2000, "thorough": 60000})
 
+
+# registration order = scheduling order: the Hypothesis searches first, so that they are never squeezed out by the
+# big enumerations when the machine is loaded
+for _name, _shards, _fn in [
+    ("grid", {"quick": 3, "thorough": 8}, s_grid),
+    ("binvox", {"quick": 3, "thorough": 8}, s_binvox),
+    ("enc_hyp", {"quick": 2, "thorough": 8}, s_enc_hyp),
+    ("enc_views", {"quick": 6, "thorough": 16}, s_enc_views),
+    ("enc_base", {"quick": 8, "thorough": 8}, s_enc_base),
+    ("rl_k1", {"quick": 8, "thorough": 12}, s_rl_k1),
+    ("enc_long", {"quick": 4, "thorough": 8}, s_enc_long),
+    ("rl_inflated", {"quick": 8, "thorough": 16}, s_rl_inflated),
+    ("rl_u16", {"quick": 2, "thorough": 2}, s_rl_u16),
+]:
+    subcheck("C13", _name, shards=_shards)(_fn)
 
 REQUIRED_CLASSES["C13"] = [
     "rl:uint8:run=max",
